@@ -30,6 +30,7 @@ CONSTANTS
   SubTargets = {"A"}
   AutoVals = {TRUE}
   SubOneshot = {FALSE, TRUE}
+  UdVals = {0}
   Senders = {"B"}
   QuitCodes = {0, 1}
   ForeignOps = {}
